@@ -14,6 +14,7 @@ from gwf.scheduling import get_status_map, should_run, submit_workflow
 logging.disable(logging.CRITICAL)
 
 META = {
+    "solver_reasoned": 'modification times: unbounded symbolic ints (and quarter-second multiples, SubSec) of every input and output; the gap between job finish times in Q1e. Selectors: existence, spec-hash situation, container shape.',
     "real": ["gwf.scheduling.should_run", "gwf.scheduling.schedule", "gwf.scheduling.get_status_map", "gwf.scheduling.submit_workflow",
              "gwf.scheduling.submit_backend", "gwf.core.Target.flattened_inputs/flattened_outputs", "gwf.core._flatten", "gwf.core._norm_path",
              "gwf.core.FileSpecHashes.has_changed/update", "gwf.core.NoopSpecHashes", "gwf.core.hash_spec", "gwf.core.CachedFilesystem",
